@@ -190,6 +190,16 @@ def run_case(case, ctx):
     y = _make_y(n, case["cont"], case["off"])
     hmax = max(fh)
     fh_arg = fh[0] if len(fh) == 1 and (n + fh[0]) % 2 == 0 else (np.array(fh) if n % 2 else list(fh))
+    # the other containers a horizon may arrive in: integer index, range index (equally spaced steps, also with step > 1), horizon object
+    pick = (n + sum(fh) + (case.get("wl") or 0)) % 6
+    equally_spaced = len(fh) >= 2 and len(set(np.diff(fh).tolist())) == 1
+    if pick == 3:
+        fh_arg = pd.Index(fh, dtype="int64")
+    elif pick == 4 and equally_spaced:
+        fh_arg = pd.RangeIndex(fh[0], fh[-1] + 1, fh[1] - fh[0])
+    elif pick == 5:
+        from sktime.forecasting.base import ForecastingHorizon
+        fh_arg = ForecastingHorizon(pd.RangeIndex(fh[0], fh[-1] + 1, fh[1] - fh[0])) if equally_spaced and n % 2 else ForecastingHorizon(list(fh))
     if kind in ("sliding", "expanding"):
         wl, step, sww, iw = case["wl"], case["step"], case["sww"], case["iw"]
         status, ref = _ref_window(kind, n, wl, step, fh, sww, iw)
